@@ -189,6 +189,15 @@ def run(chk):
             guarded("%s.score" % kind.upper(), {"probe": probe, "model": [np.asarray(q) for q in mdl] if kind == "jfa" else np.asarray(mdl), "machine": mach},
                     lambda: (mach.score(mdl, probe), mach.score(mdl, [probe[0]]), mach.estimate_x(probe), mach.estimate_ux(probe)),
                     lambda o: [np.asarray(o[2]), np.asarray(o[3])])
+            # a UBM whose floors were lowered to zero and that has a feature in tiny units (variance 1e-20): scoring must not write into it
+            ubm_t = copy.deepcopy(ubm)
+            ubm_t.variance_thresholds = 0.0
+            vt_ = np.array(ubm_t.variances, dtype=float)
+            vt_[:, 0] = 1e-20
+            ubm_t.variances = vt_
+            mach_t = fa.make_machine(kind, ubm_t, 1, 1, U=np.asarray(mach.U), V=np.asarray(mach.V) if kind == "jfa" else None, Dv=np.asarray(mach.D))
+            guarded("%s.estimate_x/score[ubm with a tiny variance]" % kind.upper(), {"probe": probe, "ubm": ubm_t},
+                    lambda: (mach_t.estimate_x(probe), mach_t.score(mdl, probe)), lambda o: [np.asarray(o[0])])
             ga = gen.nprng(r)
             Xa = np.asarray(ubm.means)[ga.integers(0, 2, size=(4, 3))] + ga.normal(size=(4, 3, 2)) * np.sqrt(np.asarray(ubm.variances).mean())
             ya = np.array([0, 1, 1, 0])
